@@ -86,7 +86,16 @@ func (t *TimerBasedElectionTrigger) Stop() {
 }
 
 func (t *TimerBasedElectionTrigger) CalcTimeout(view primitives.View) time.Duration {
+	if t.minTimeout <= 0 {
+		return t.minTimeout
+	}
+	if view >= 63 { // 2^view does not fit a Duration: saturate
+		return time.Duration(math.MaxInt64)
+	}
 	timeoutMultiplier := time.Duration(int64(math.Pow(TIMEOUT_EXP_BASE, float64(view))))
+	if timeoutMultiplier > time.Duration(math.MaxInt64)/t.minTimeout {
+		return time.Duration(math.MaxInt64)
+	}
 	return timeoutMultiplier * t.minTimeout
 }
 
